@@ -592,6 +592,56 @@ theorem collapse_ok (lk : Lookup) (name : Name) (cfg : List (String × String)) 
             · rfl
           · rw [← h]; exact keys_filterMap_nodup _ _ hnd
 
+theorem finish_ok (slist : List Entry) (cfg : List (String × String)) (h : finish slist = .ok cfg) :
+    (firstDef "class" slist).isSome = true ∧
+      (∀ k, k ∉ specialKeys → cfg.lookup k = firstDef k slist) ∧
+      (∀ k, k ∈ specialKeys → cfg.lookup k = none) ∧ (cfg.map (·.1)).Nodup := by
+  unfold finish at h
+  cases hc : firstDef "class" slist with
+  | none => simp [hc] at h
+  | some cv =>
+    simp only [hc, Except.ok.injEq] at h
+    have hnd : ((dedup (slist.flatMap (fun e => e.conf.items.map (·.1)))).filter
+        (fun k => !(specialKeys.contains k))).Nodup := (nodup_dedup _).filter _
+    refine ⟨by simp, ?_, ?_, ?_⟩
+    · intro k hk
+      rw [← h, lookup_filterMap_keys _ _ _ hnd]
+      simp only [List.mem_filter, mem_dedup]
+      split
+      · rfl
+      · rename_i hn
+        cases hf : firstDef k slist with
+        | none => rfl
+        | some v =>
+          exfalso
+          apply hn
+          exact ⟨firstDef_some_mem k v slist hf, by simpa using hk⟩
+    · intro k hk
+      rw [← h, lookup_filterMap_keys _ _ _ hnd]
+      simp only [List.mem_filter, mem_dedup]
+      split
+      · rename_i hm
+        have := hm.2
+        simp at this
+        exact absurd hk this
+      · rfl
+    · rw [← h]; exact keys_filterMap_nodup _ _ hnd
+
+theorem collapseAnon_ok (lk : Lookup) (sec : Sec) (cfg : List (String × String)) (h : collapseAnon lk sec = .ok cfg) :
+    ∃ slist, sec.inheritOnly = false ∧ loop lk [⟨anonName, sec, []⟩] [anonName] [] = .ok slist ∧
+      (firstDef "class" slist).isSome = true ∧
+      (∀ k, k ∉ specialKeys → cfg.lookup k = firstDef k slist) ∧
+      (∀ k, k ∈ specialKeys → cfg.lookup k = none) ∧ (cfg.map (·.1)).Nodup := by
+  unfold collapseAnon at h
+  by_cases hio : sec.inheritOnly = true
+  · simp [hio] at h
+  · simp only [hio, Bool.false_eq_true, if_false] at h
+    cases hl : loop lk [⟨anonName, sec, []⟩] [anonName] [] with
+    | error e => simp [hl] at h
+    | ok slist =>
+      simp only [hl] at h
+      exact ⟨slist, by simpa using hio, rfl, finish_ok slist cfg h⟩
+
 theorem root_eq (lk : Lookup) (name : Name) :
     Spec.root (stkOf lk) name = (stackOf lk name).map (fun p => ⟨name, p.1, p.2⟩) := by
   rw [stackOf_eq]
@@ -635,6 +685,7 @@ theorem minv_step (m : Mgr) (op : MOp) (h : MInv m) : MInv (m.step op).1 := by
           exact h.2 n' c' hl
   | addSource src => exact minv_reload _
   | reload => exact minv_reload _
+  | collapseAnon sec => exact h
 
 theorem minv_run (ops : List MOp) (m : Mgr) (h : MInv m) : MInv (Mgr.run m ops).1 := by
   induction ops generalizing m with
@@ -647,6 +698,7 @@ def sourcesAfter : List Source → List MOp → List Source
   | s, .addSource src :: ops => sourcesAfter (s ++ [src]) ops
   | s, .collapse _ :: ops => sourcesAfter s ops
   | s, .reload :: ops => sourcesAfter s ops
+  | s, .collapseAnon _ :: ops => sourcesAfter s ops
 
 theorem run_sources (ops : List MOp) (m : Mgr) : (Mgr.run m ops).1.sources = sourcesAfter m.sources ops := by
   induction ops generalizing m with
@@ -662,6 +714,7 @@ theorem run_sources (ops : List MOp) (m : Mgr) : (Mgr.run m ops).1.sources = sou
       | none => simp only; cases collapse m.lookup n <;> rfl
     | addSource src => rfl
     | reload => rfl
+    | collapseAnon sec => rfl
 
 theorem mrun_append (m : Mgr) (xs ys : List MOp) :
     Mgr.run m (xs ++ ys) = ((Mgr.run (Mgr.run m xs).1 ys).1, (Mgr.run m xs).2 ++ (Mgr.run (Mgr.run m xs).1 ys).2) := by
@@ -683,5 +736,9 @@ theorem step_collapse_of_inv (m : Mgr) (h : MInv m) (n : Name) :
   | none =>
     simp only
     cases collapse m.lookup n <;> rfl
+
+/-- an anonymous collapse never looks at (or changes) the rendered sections -/
+theorem step_collapseAnon (m : Mgr) (sec : Sec) :
+    (m.step (.collapseAnon sec)).2 = some (collapseAnon m.lookup sec) := rfl
 
 end Pkgcore.C43
